@@ -56,5 +56,5 @@ def run(ctx, rep):
         else:
             rep.ob('P-inventory', inst, True)
     rep.info['panic-capable sites'] = n
-    rep.floor('P-inventory', 'panic-capable sites scanned', n, 60)
+    rep.floor('P-inventory', 'panic-capable sites scanned', n, 60 if ctx.config == 'default' else 40)   # release: no debug/overflow asserts
     rep.ledger = [{'key': list(k), 'count': len(v), 'reason': allowed.get(k, {}).get('reason', '?')} for k, v in sorted(sites.items())][:80]
